@@ -246,7 +246,7 @@ def run(repo: Repo, rep: Report, tier: str) -> None:
             t = c.args[0] if c.args else None
             sentinel = isinstance(t, ast.Tuple) and all(isinstance(e_, ast.Constant) and e_.value is None for e_ in t.elts)
             rep.check(q == "dimse.DIMSEServiceProvider.receive_primitive" or sentinel, "id-flow", q, enclosing(c, (ast.stmt,)), "a DIMSE message is put on the queue outside the reader that decoded it: the context id it is paired with is not the one it arrived on - a request received on a rejected, never proposed or invalid context id that is re-queued under an accepted one is served by the handler instead of aborting the association", mod=m, node=c)
-    rep.floor("msg_queue writers in the package", n_put, 4)
+    rep.floor("msg_queue writers in the package", n_put, 1)
 
     # ---- store sub-operation -----------------------------------------------------------------------
     cs = repo.func("association", "Association._c_store_scp")
